@@ -789,3 +789,49 @@ pub fn record(args: &[String]) -> i32 {
     wtr.flush().unwrap();
     0
 }
+
+// ------------------------------------------------------------------------------------------------
+// C19: random sessions (the harness runs them, see xp_session.rs)
+
+pub fn random_sessions(seed: u64, n: usize) -> Vec<J> {
+    let mut rng = StdRng::seed_from_u64(seed ^ 0x5e55);
+    let mut out = vec![];
+    let nofunc = func("nofunc", vec![]);
+    let dos = json!({"axis": "descendant-or-self", "test": {"k": "type", "ty": "node"}, "preds": []});
+    for _ in 0..n {
+        let tree = gen_tree(&mut rng);
+        let text = ser(&tree);
+        let mut asts: Vec<J> = vec![];
+        for _ in 0..3 {
+            let depth = rng.gen_range(1..4);
+            let mut g = ExprGen { rng: &mut rng, scalar: false };
+            asts.push(g.any_expr(depth));
+        }
+        asts.push(func("position", vec![]));
+        asts.push(func("last", vec![]));
+        // failing queries: an unknown function / an ill-typed call at different predicate depths
+        let any_step = |preds: Vec<J>| json!({"axis": "child", "test": {"k": "any"}, "preds": preds});
+        asts.push(json!({"t": "path", "abs": true, "steps": [dos.clone(), any_step(vec![nofunc.clone()])]}));
+        let inner = json!({"t": "path", "abs": false, "steps": [json!({"axis": "child", "test": {"k": "type", "ty": "node"}, "preds": [nofunc.clone()]})]});
+        asts.push(json!({"t": "path", "abs": true, "steps": [dos.clone(), any_step(vec![inner])]}));
+        asts.push(json!({"t": "filt", "e": {"t": "path", "abs": true, "steps": [dos.clone(), any_step(vec![])]},
+                         "preds": [func("count", vec![num(1024)])], "steps": []}));
+        asts.push(nofunc.clone());
+        {
+            // a random path whose last step gets a failing second predicate
+            let mut g = ExprGen { rng: &mut rng, scalar: false };
+            let mut steps = g.steps(1, 2);
+            let last = steps.len() - 1;
+            let mut preds = steps[last]["preds"].as_array().cloned().unwrap_or_default();
+            preds.push(func("sum", vec![lit("x")]));
+            steps[last]["preds"] = json!(preds);
+            asts.push(json!({"t": "path", "abs": true, "steps": steps}));
+        }
+        let exprs: Vec<J> = asts.iter().map(|a| string_to_cps(&unparse(a, &CANON))).collect();
+        let len = rng.gen_range(2..13);
+        let qs: Vec<usize> = (0..len).map(|_| rng.gen_range(1..=asts.len())).collect();
+        out.push(json!({"k": "session", "tree": tree, "text": string_to_cps(&text), "binds": [], "asts": asts,
+                        "exprs": exprs, "qs": qs}));
+    }
+    out
+}
